@@ -913,7 +913,7 @@ def run(ctx, g, max_n):
         idx += 1
         b.run_oracle(ctx, call, case, key=(call, idx))
         ctx.branch(branch + ':oracle')
-    reps = 1 if quick else 8
+    reps = 1 if quick else 4
     for rep in range(reps):
         # ------------------------------------------------------------------ R15
         for scheme in b.SCHEMES:
